@@ -4,7 +4,7 @@
 //! requests in origin-form and absolute-form.
 use std::sync::Mutex;
 
-use micro_http::{Body, EndpointHandler, HttpRoutes, Method, Request, Response, StatusCode, Version};
+use micro_http::{Body, EndpointHandler, HttpRoutes, MediaType, Method, Request, Response, StatusCode, Version};
 
 use crate::conn::guarded;
 use crate::model::read_response;
@@ -24,6 +24,12 @@ impl EndpointHandler<Log> for Recorder {
         arg.lock().unwrap().push(self.id);
         let mut r = Response::new(Version::Http10, StatusCode::OK);
         r.set_body(Body::new(format!("handler-{}", self.id)));
+        // handlers are free to fill in identity and content type themselves; the router's stamp
+        // must still be what leaves it (every second handler does, so both kinds are dispatched)
+        if self.id % 2 == 1 {
+            r.set_content_type(MediaType::PlainText);
+            r.set_server("handler-chosen-identity");
+        }
         r
     }
 }
@@ -115,6 +121,9 @@ fn check_table(ctx: &mut Ctx, prefix: &str, regs: &[(usize, usize)], uris: &[Str
             match want {
                 Some(id) => {
                     ctx.rep.count("dispatches_to_a_handler");
+                    if id % 2 == 1 {
+                        ctx.rep.count("dispatches_to_a_handler_that_sets_its_own_identity_and_content_type");
+                    }
                     if invoked != vec![id] {
                         problem = Some(("wrong-handler", format!("handlers invoked {:?}, expected exactly [{}]", invoked, id)));
                     } else if resp.status() != StatusCode::OK || code != 200 || body != format!("handler-{}", id).into_bytes() {
